@@ -282,7 +282,7 @@ def _scalar(cx: Ctx, env, ty, depth):
             return f"Count({s})" if (cx.chance(7) or not cx.cfg.count_fn) else f"len({s})"
         if c == 6:
             return f"(-{gen(cx, env, ty, depth - 1)})"
-        if c == 7 and cx.cfg.helpers and cx.chance(6):
+        if c in (7, 8, 9) and cx.cfg.helpers and cx.chance(7):
             if cx.chance(5):
                 return f"hscale({gen(cx, env, ty, depth - 1)})"
             a, b = gen(cx, env, ty, depth - 1), gen(cx, env, ty, depth - 1)
@@ -322,6 +322,9 @@ def any_type(cx: Ctx, env, depth):
     if depth <= 0 or c <= 4:
         avail = [t for _, t in paths(cx, env, 1) if t[0] in ("I", "F", "B", "O")]
         return cx.pick([I, F] + avail[:6])
+    if c == 6 and cx.cfg.containers and cx.cfg.record_ctor:
+        n = cx.int_(1, 3)
+        return ("D", tuple((f"f_{chr(97 + i)}", any_type(cx, env, depth - 1)) for i in range(n)))
     if c <= 6 and cx.cfg.containers:
         n = cx.int_(1, 3)
         return (cx.pick(["T", "T", "L"]) if cx.cfg.lists else "T", tuple(any_type(cx, env, depth - 1) for _ in range(n)))
@@ -436,6 +439,10 @@ def _called_lambda(cx: Ctx, env, ty, depth):
     for nm, t in zip(names, tys):
         e2 = bind(e2, nm, t)
     body = gen(cx, e2, ty, depth - 1)
+    if cx.cfg.keywords_in_called and tys[-1] in (I, F, B) and cx.chance(2):
+        # the last parameter has a default value and the call omits it
+        params = names[:-1] + [f"{names[-1]}={_const(cx, tys[-1])}"]
+        return f"(lambda {', '.join(params)}: {body})({', '.join(args[:-1])})"
     if cx.cfg.keywords_in_called and cx.chance(4):
         npos = cx.int_(0, n - 1)
         order = list(range(npos, n))
